@@ -32,6 +32,11 @@ except Exception: m={}
 m.update({"name":name,"property":prop,"origin":"independent sub-agent given only the property text and a scratch worktree",
  "confirmed":{"demo_on_unchanged_code":"pass","demo_with_change":"fail","existing_suite_with_change":f"pass ({nt} tests incl. doctests)",
    "how":f"tools/seedverify.sh in a scratch worktree: cargo test --offline {feat} --test demo_seed (before / after git apply), cargo test --workspace --offline"}})
+try:
+    lines=[l.strip().lstrip('#').strip() for l in open(f"/verif/seeded/{name}/notes.md") if l.strip()]
+    m.setdefault("what", lines[0][:400]); m.setdefault("needs", lines[1][:400] if len(lines)>1 else "")
+except Exception:
+    pass
 json.dump(m,open(p,"w"),indent=1)
 PY
     echo KEPT
